@@ -28,6 +28,11 @@ BscCases == [fam : {"client"}, ty : {"bsc"}, kind : Kinds, st : {"fresh", "samet
 EthCases == [fam : {"client"}, ty : {"eth"}, kind : Kinds, st : {"fresh", "sametype", "expired"},
              f : {"valid", "nodiff", "gasover", "wrongcons", "nilcons", "longbloom", "bigextra", "nobasefee", "zeroheight"}]
 
+(* "foreigncons": a client of the same type exists and an earlier, accepted upgrade proposal left it a consensus state of ANOTHER *)
+(* light-client type at its latest height (proposal validation looks at the client state only): a small family per type          *)
+ForeignCases == [fam : {"client"}, ty : {"bsc"}, kind : Kinds, st : {"foreigncons"}, epoch : {"4"}, height : {"epochmult"}, extra : {"vals"}, sig : {"good"}, shape : {"ok", "wrongcons"}]
+           \cup [fam : {"client"}, ty : {"eth", "tm"}, kind : Kinds, st : {"foreigncons"}, f : {"valid", "wrongcons"}]
+
 (* parameter-change proposals: the JSON value a proposal carries *)
 RvCases == [fam : {"param"}, sub : {"rvesting"}, list : {"empty", "one", "two", "dup", "three"}, amount : {"present", "absent", "null", "negative", "nonnumeric", "zero", "huge"},
             denom : {"lower", "upper", "empty", "absent", "short", "badchar"}, enable : {"true", "false", "garbage"}, pool : {"empty", "small"}]
@@ -47,7 +52,7 @@ GenCases == [fam : {"genesis"}, sub : {"aggregate"}, f : {"default", "one", "two
        \cup [fam : {"genesis"}, sub : {"rvesting"}, from : {"none", "funded", "poor", "unknown", "invalid"}, reward : {"none", "small", "big", "zero", "twodenoms", "unsorted"}]
        \cup [fam : {"genesis"}, sub : {"xibc"}, f : {"default", "tssclient", "clientnocons", "consnoclient", "metanoclient", "relayermismatch", "emptynative", "duprelayer"}]
 
-Cases == TmCases \cup TssCases \cup BscCases \cup EthCases \cup RvCases \cup AggParamCases \cup AggCases \cup GenCases
+Cases == TmCases \cup TssCases \cup BscCases \cup EthCases \cup ForeignCases \cup RvCases \cup AggParamCases \cup AggCases \cup GenCases
 Init == c \in Cases
 Next == UNCHANGED c
 Spec == Init /\ [][Next]_c
